@@ -56,3 +56,81 @@ def check_batch(module, traces, invariants, properties, workers=8, timeout=900, 
                     env_extra={"TRACE_FILE": tf}, workdir=os.path.join(wd, "tlc"), jvm=("-Xmx6g", "-Xss16m"))
     viol = parse_violations(r.stdout)
     return viol, r
+
+
+# ------------------------------------------------------------------------------------------------
+# Fast, linear reporting: instead of letting TLC stop at (or, with -continue, print a full behaviour for)
+# every violated invariant, a generated wrapper module evaluates the SAME clause definitions on every
+# step and accumulates (clause, step) pairs in a history variable; the set is printed once per trace.
+_DEF = re.compile(r"^([A-Za-z_][A-Za-z0-9_]*)(\([^)]*\))? ==", re.M)
+
+
+def _definition_body(text, name):
+    m = re.search(r"^%s[ \t]*==" % re.escape(name), text, re.M)
+    if not m:
+        raise KeyError(name)
+    start = m.end()
+    rest = text[start:]
+    end = len(rest)
+    for mm in re.finditer(r"^(?:[A-Za-z_][A-Za-z0-9_]*(?:\([^)]*\))?[ \t]*==|\(\*|\\\*|----|====|RECURSIVE|VARIABLE|CONSTANT)", rest, re.M):
+        end = mm.start()
+        break
+    return rest[:end].strip()
+
+
+def make_run_module(module, invs, props):
+    src = open(os.path.join(tlc.SPEC, module + ".tla")).read()
+    parts0, parts1 = [], []
+    for i in invs:
+        parts0.append('(IF ~(%s) THEN {"%s"} ELSE {})' % (i, i))
+        parts1.append("(IF ~((%s)') THEN {\"%s\"} ELSE {})" % (i, i))
+    for pname in props:
+        body = _definition_body(src, pname)
+        j = body.rfind("]_vars")
+        assert body.startswith("[][") and j > 0, (pname, body[:40], body[-20:])
+        body = body[3:j]
+        parts1.append('(IF ~(%s) THEN {"%s"} ELSE {})' % (body, pname))
+    f0 = "\n     \\cup ".join(parts0) if parts0 else "{}"
+    f1 = "\n     \\cup ".join(parts1) if parts1 else "{}"
+    name = "Run_" + module
+    text = """---- MODULE %s ----
+EXTENDS %s
+VARIABLE viol
+Fails0 == %s
+Fails1 == %s
+RInit == Init /\\ viol = {<<c, 0>> : c \\in Fails0}
+RNext == Next /\\ viol' = viol \\cup {<<c, l'>> : c \\in (Fails1 \\ {x[1] : x \\in viol})}
+Report == (l = Len(Traces[tid].ev) /\\ viol # {}) => PrintT(<<"V", tid, viol>>)
+====
+""" % (name, module, f0, f1)
+    return name, text
+
+
+_RE_V = re.compile(r'^<<"V", (\d+), \{(.*)\}>>\s*$')
+_RE_PAIR = re.compile(r'<<"([A-Za-z0-9_]+)", (\d+)>>')
+
+
+def check_batch(module, traces, invariants, properties, workers=8, timeout=900, workdir=None, tag=""):
+    """traces: list of {"cfg":..., "ev":[...]}.  Returns (violations [{clause, tid, l}], tlc result)."""
+    wd = workdir or os.path.join(tlc.CACHE, "tc", "%s-%d-%s" % (module, os.getpid(), tag))
+    os.makedirs(os.path.join(wd, "tlc"), exist_ok=True)
+    tf = os.path.join(wd, "traces.json")
+    with open(tf, "w") as f:
+        json.dump(traces, f)
+    name, text = make_run_module(module, list(invariants), list(properties))
+    with open(os.path.join(wd, "tlc", name + ".tla"), "w") as f:
+        f.write(text)
+    cfg = "INIT RInit\nNEXT RNext\nINVARIANT Report\nCHECK_DEADLOCK FALSE\n"
+    r = tlc.run_tlc(name, cfg, workers=workers, timeout=timeout, env_extra={"TRACE_FILE": tf},
+                    workdir=os.path.join(wd, "tlc"), jvm=("-Xmx6g", "-Xss16m"))
+    viol = []
+    for line in r.stdout.splitlines():
+        m = _RE_V.match(line.strip())
+        if m:
+            tid = int(m.group(1))
+            for c, l in _RE_PAIR.findall(m.group(2)):
+                viol.append({"clause": c, "tid": tid, "l": int(l)})
+    if not workdir:
+        import shutil
+        shutil.rmtree(wd, ignore_errors=True)
+    return viol, r
